@@ -3,6 +3,7 @@ package main
 import (
 	"bufio"
 	"fmt"
+	"strconv"
 	"strings"
 
 	"github.com/openziti/storage/ast"
@@ -23,7 +24,13 @@ func init() {
 }
 
 var c11Alphabet = []string{"a", "n", "t", "\\", "\"", " ", "\n", "\t", "x"}
-var c11Extra = []string{"r", "f", "\r", "\f", "é", "and", "\\\\", "\"\"", "'", "%", "世"}
+var c11Extra = []string{"r", "f", "\r", "\f", "é", "and", "\\\\", "\"\"", "'", "%", "世",
+	// characters with an ASCII look-alike or no width: a literal must denote them as they are
+	"\u00a0", "\u202f", "\u201c", "\u201d", "\u2018", "\uff02", "\uff3c", "\u200b", "\ufeff", "e\u0301", "A", "N"}
+
+// c11Confusable maps each character that has an ASCII look-alike (or no width) to it
+var c11Confusable = strings.NewReplacer("\u00a0", " ", "\u202f", " ", "\u201c", "\"", "\u201d", "\"", "\u2018", "'",
+	"\uff02", "\"", "\uff3c", "\\", "\u200b", "", "\ufeff", "", "e\u0301", "é")
 
 func c11Escape(s string, r *rng, alwaysCtl bool) string {
 	var b strings.Builder
@@ -52,6 +59,25 @@ func c11Escape(s string, r *rng, alwaysCtl bool) string {
 
 var c11Ops = []string{"eq", "ne", "in", "nin", "contains", "ncontains"}
 
+// the case-insensitive operators are generated for ASCII-only strings (the model upper-cases ASCII)
+var c11OpsAscii = []string{"eq", "ne", "in", "nin", "contains", "ncontains", "icontains", "nicontains", "icontains"}
+
+func c11IsAscii(s string) bool {
+	for i := 0; i < len(s); i++ {
+		if s[i] >= 0x80 {
+			return false
+		}
+	}
+	return true
+}
+
+func c11PickOp(r *rng, s string) string {
+	if c11IsAscii(s) {
+		return pick(r, c11OpsAscii)
+	}
+	return pick(r, c11Ops)
+}
+
 func c11Fields(s string, r *rng) []string {
 	// the intended string, the misreadings a faulty unescape would produce, and neighbours
 	fs := []string{s}
@@ -60,6 +86,14 @@ func c11Fields(s string, r *rng) []string {
 	fs = append(fs, strings.ReplaceAll(s, `\\`, `\`))
 	fs = append(fs, strings.ReplaceAll(s, `\"`, `"`))
 	fs = append(fs, s+"x", "x"+s+"y")
+	if c := c11Confusable.Replace(s); c != s {
+		fs = append(fs, c)
+	}
+	if c11IsAscii(s) {
+		// what a re-escaped or re-quoted operand would look like, and a case variant
+		q := strconv.Quote(s)
+		fs = append(fs, q[1:len(q)-1], strings.ToUpper(s), strings.ToLower(s))
+	}
 	if len(s) > 0 {
 		fs = append(fs, s[1:], s[:len(s)-1])
 	}
@@ -71,7 +105,7 @@ func c11Emit(out *bufio.Writer, s string, r *rng) {
 	lit := c11Escape(s, r, false)
 	fmt.Fprintf(out, "u %s %s\n", toWire(lit), toWire(s))
 	litE := c11Escape(s, r, true)
-	op := pick(r, c11Ops)
+	op := c11PickOp(r, s)
 	fmt.Fprintf(out, "e %s %s %s", op, toWire(litE), toWire(s))
 	for _, f := range c11Fields(s, r) {
 		fmt.Fprintf(out, " %s", toWire(f))
@@ -89,7 +123,7 @@ func c11Emit(out *bufio.Writer, s string, r *rng) {
 			}
 		}
 		if len(vals) > 0 {
-			fmt.Fprintf(out, "b %s %s %s", pick(r, c11Ops), toWire(litE), toWire(s))
+			fmt.Fprintf(out, "b %s %s %s", c11PickOp(r, s), toWire(litE), toWire(s))
 			for _, f := range vals {
 				fmt.Fprintf(out, " %s", toWire(f))
 			}
@@ -159,6 +193,10 @@ func c11Exec(line string) string {
 			q = "f contains " + lit
 		case "ncontains":
 			q = "f not contains " + lit
+		case "icontains":
+			q = "f icontains " + lit
+		case "nicontains":
+			q = "f not icontains " + lit
 		}
 		syms := newMemSymbols()
 		syms.types["f"] = ast.NodeTypeString
